@@ -219,7 +219,8 @@ type world struct {
 	closed  bool
 
 	primersPassed, primersRefused int
-	buf                           []byte // scratch of dump/changed
+	buf                           []byte     // scratch of dump/changed
+	trail                         []caseSpec // rows sent since the last boot (trail_test.go)
 }
 
 func newWorld(spec cfgSpec, slot int, dir string) *world {
@@ -244,6 +245,7 @@ func (w *world) fresh() error {
 		return nil
 	}
 	w.shutdown()
+	w.trail = w.trail[:0]
 	w.store = queue.NewMemoryStore(queue.WithNowFunc(func() time.Time { return fixedNow }))
 	w.ad = nextAddrs()
 	w.text = dsl(w.spec, w.ad, filepath.Join(w.dir, "tok"))
